@@ -69,6 +69,27 @@ T = {
          "Non-terminating programs are cut at an instruction cap (24 / 60) and reported as cut."),
 }
 
+# spaces added while the checks were strengthened against independently seeded defects (DESIGN.md section 11.6)
+ADD = {
+ "C01": " Producer -> consumer chains for every register-writing mnemonic; boundary memory words in every seed's slice.",
+ "C02": " Producer -> consumer chains, faulting instructions with independent neighbours.",
+ "C03": " Alphabets contain reset(), alias spellings of one address (a, a +- 2^32) and, in the 'wordz' configurations, stores of 0 over a sparsely preloaded backing store; the state key keeps zero / non-zero of the counters and is taken before the oracle observes.",
+ "C04": " Plus: label names that are mnemonics, all sequences of by-name pseudo-instructions, programs that fill the instruction memory exactly, and differentials between FRESH interpreters (the same text assembled after the TOY assembler / other simulations were active vs. in a pristine interpreter).",
+ "C05": " Rotations: data-cache configurations, data memories whose valid range starts elsewhere, loads over an earlier program and again after a rejected one.",
+ "C06": " Every program is driven by whole steps, single cycles, explicit half cycles and in alternation with a second independent simulation; fresh-interpreter differentials (run after machines of another size / the other ISA were active).",
+ "C09": " Preload clause (load_program leaves counters and cycles untouched, first counted access is a cold miss); reload clause (load X; k steps; load Y; run: d(cycles) = uncached + penalty x misses in each phase); statistics calls as BFS operations.",
+ "C10": " Plus every history up to length 4-5 (7) over the operations of TWO policy objects side by side (all pairs of kind and size), each history on freshly executed class definitions; the observers are BFS operations.",
+ "C11": " Programs filling the instruction memory; reload histories incl. a rejected program; histories in which the statistics are asked for at two points only (all k, j).",
+ "C12": " The backing store is read word by word from the backing Memory object; both tables are compared with it; table calls are BFS operations ('wordz' configurations with stores of 0 and equal values over a sparse preload).",
+ "C14": " Views while executing: every mnemonic with wide / x0 operands and boundary immediates executed step by step in both modes; listing, pipeline-view text and error text after every step must assemble to the stored instruction and the listing must re-assemble to itself.",
+ "C16": " The baseline is observed by one separate run per inspection function; probes in the deviation step, one step later and at the end; corpus programs with a script of later loads; inspected vs. uninspected runs in separate fresh interpreters, observed after every step.",
+ "C17": " Table histories (writes, reads, resets, table calls) on uncached and cached simulations (table vs. the backing store's own cells); every word in the TOY instruction register.",
+ "C18": " Operations include reset(), 'a simulation of the other architecture is created next to this memory', and 'the owning simulation loads a rejected program, then one without data'; the public cell table is compared after every transition and the first observation pins old-or-new cells.",
+ "C19": " The assembler space is repeated on simulations with other memory sizes; fresh-interpreter differentials (after a machine of another size / the RISC-V assembler / an earlier program with the same names).",
+ "C13": " Every configuration is explored twice: plainly and with every inspection function called after every operation.",
+ "C15": " Replacement alphabet includes non-ASCII digits, letters that match mnemonics only through unicode case folding, string literals above U+00FF.",
+}
+
 NA_REASON = "check not built yet at this commit (work in progress; the technique applies, see DESIGN.md)"
 
 
@@ -80,6 +101,7 @@ def main():
         mod = os.path.join(HERE, "vf", "checks", pid.lower() + ".py")
         if pid in T and os.path.exists(mod):
             level, ref, tech, text, note = T[pid]
+            text = text + ADD.get(pid, "")
             checks.append(dict(property_id=pid, quick_cmd=f"./check {pid} quick", thorough_cmd=f"./check {pid} thorough",
                                evidence_file=f"/verif/evidence/{pid}.json", replay_cmd_template=f"./check {pid} --replay {{path}}",
                                engine="vf", level_claimed=dict(category=level, text=text, design_ref="DESIGN.md section " + ref),
@@ -93,9 +115,9 @@ def main():
                    enable="no source hooks are needed: checks import the working tree under /repo directly (VF_REPO overrides the path) and drive public constructors; ./check exports the guard for completeness",
                    baseline_off_cmd=BASELINE, source_commits=[], add_only=True),
         engines=[dict(name="vf", path="/verif/vf", serves_properties=[c["property_id"] for c in checks],
-                      kind_free_text="hand-written bounded-exhaustive explorers for Python: ENUM (sharded product enumeration), BFS (level-synchronous explicit-state search over API-call histories replayed on fresh real objects, canonical dedup, fixed-point detection), DEV (deviation-bounded); lock-step Python reference models as oracles")],
+                      kind_free_text="hand-written bounded-exhaustive explorers for Python: ENUM (sharded product enumeration), BFS (level-synchronous explicit-state search over API-call histories replayed on fresh real objects, canonical dedup, fixed-point detection), DEV (deviation-bounded); lock-step Python reference models as oracles; scenarios whose subject is what a PROCESS did before (class- / module-level state) are enumerated as differentials between fresh interpreters (vf/engine/fresh.py)")],
         checks=checks,
-        notes="Genuine defects found and repaired are listed in /verif/known_findings.json (status fixed) with their 'fix:' commits in /repo. quick = every change (20-60 s on 16 cores), thorough = deeper bounds with the same technique.",
+        notes="Genuine defects found and repaired are listed in /verif/known_findings.json (status fixed) with their 'fix:' commits in /repo. quick = every change (10-100 s per check on 16 cores), thorough = deeper bounds with the same technique.",
         not_applicable=na,
     )
     with open(os.path.join(HERE, "MANIFEST.json"), "w") as f:
